@@ -110,8 +110,8 @@ type Describer interface{ Describe() string }
 // Property describes one registered check.
 type Property struct {
 	ID      string
-	NewCase func() interface{}                 // pointer to a zero case, for JSON decoding
-	Gen     func(t *rapid.T) interface{}       // draws a case (pointer)
+	NewCase func() interface{}                  // pointer to a zero case, for JSON decoding
+	Gen     func(t *rapid.T) interface{}        // draws a case (pointer)
 	Check   func(c interface{}, s *Stats) error // nil = holds; Discard = not counted; else violation
 }
 
